@@ -990,7 +990,7 @@ func c17Setstat(c *reg.Ctx) *reg.Result {
 	defer os.RemoveAll(root)
 	type variant struct {
 		server, req, target string
-		pflags             uint32
+		pflags              uint32
 	}
 	variants := []variant{
 		{"os", "SETSTAT", "file", 0}, {"os", "SETSTAT", "dir", 0}, {"os", "SETSTAT", "symlink", 0},
